@@ -71,6 +71,18 @@ CHECKS = {
    design_ref="DESIGN.md section 3, C04",
    note="Bounded-time reading: Kill counts as hung after H=max(4N,N+15s); frozen net/rpc and mux plugins (bounded only by the 30+10 s yamux keep-alive) run in the thorough tier only; the not-force-killed clause is judged for non-concurrent patterns.",
    technique="runtime monitoring: /proc + cleanup-marker oracle over real subprocess shutdown behaviours, race detector"),
+ "C02": dict(
+   category="exploration",
+   text="Runtime monitor: one real plugin subprocess per (host version set, plugin version set) pair over versions 0-4 with versioned / legacy / mixed layouts and per-version wire protocols; every plugin set carries a version tag reported by the dispensed implementation and by the host-side wrapper; half the cases also run the plugin directly with a chosen PLUGIN_PROTOCOL_VERSIONS to read the raw announced line. Oracle = set arithmetic (highest common version, lowest when no list, incompatible-version error + terminated process when disjoint). Thorough is exhaustive over all 31x31 subset pairs.",
+   design_ref="DESIGN.md section 3, C02",
+   note="Sets registered under one version use the same wire protocol on both sides; GRPCServer configured whenever a plugin-side set is gRPC.",
+   technique="runtime monitoring: version-tag echo + raw handshake line capture, set-arithmetic oracle (exhaustive in thorough)"),
+ "C03": dict(
+   category="fault_enumeration",
+   text="Fault enumeration by runtime monitor: named crash points (hook points inside go-plugin armed to SIGKILL / os.Exit, points in the scripted plugin, external SIGKILL while idle and at seeded instants under traffic) x three protocols x the host operation in flight, on real subprocesses; every in-flight and subsequent host call is recorded at the API boundary and must return within the hang threshold, with an error where it needed the plugin; Exited() and the gRPC client context are polled as bounded progress after the observed death; the host child must survive.",
+   design_ref="DESIGN.md section 3, C03",
+   note="Nominal bounds <= 6 s, hang threshold 24 s; a crash point that is never reached makes the case inconclusive.",
+   technique="runtime monitoring: crash-point injection via hook points and signals, call/return log judged against a needs-the-plugin table"),
 }
 PENDING_REASON = "check not built yet in this revision; it is planned as a runtime monitor (see DESIGN.md section 3) and will move to 'checks' when it exists"
 
